@@ -876,7 +876,10 @@ func (env *SpecEnv) call(x *SExpr) (*Term, types.Type) {
 				if env.before == nil {
 					env.fail("before() is only available in loop invariants")
 				}
-				return env.inState(env.before).tr(args[0])
+				// loop-entry state: both the heap and the locals as they were when the loop was entered
+				n := env.inState(env.before)
+				n.cellSt = env.before
+				return n.tr(args[0])
 			case "has":
 				m, mt := env.tr(args[0])
 				k, _ := env.tr(args[1])
@@ -918,6 +921,20 @@ func (env *SpecEnv) call(x *SExpr) (*Term, types.Type) {
 					env.fail("fresh() needs a pre-state")
 				}
 				return And(Le(env.old.ctr, Root(v)), Lt(Root(v), env.cur.ctr)), types.Typ[types.Bool]
+			case "newinloop":
+				// the object (or backing array of the slice) was allocated after the loop was entered
+				v, _ := env.tr(args[0])
+				if env.before == nil {
+					env.fail("newinloop() is only available in loop invariants")
+				}
+				if v.Sort == "Slice" {
+					v = SArr(v)
+				}
+				return Le(env.before.ctr, Root(v)), types.Typ[types.Bool]
+			case "samearray":
+				a, _ := env.tr(args[0])
+				b, _ := env.tr(args[1])
+				return And(Eq(SArr(a), SArr(b)), Eq(SOff(a), SOff(b))), types.Typ[types.Bool]
 			case "allocated":
 				v, _ := env.tr(args[0])
 				return And(Lt(Root(v), env.cur.ctr)), types.Typ[types.Bool]
